@@ -275,7 +275,7 @@ def run_family(family, mode, n, labels, seed, runner, workdir, extra=None, jobs=
     hist, harness_errors, traces = {}, [], []
     for tr, p in procs:
         try:
-            _, err = p.communicate(timeout=3000)
+            _, err = p.communicate(timeout=3000 if n > 1500 else 900)
         except subprocess.TimeoutExpired:
             p.kill()
             _, err = p.communicate()
@@ -372,7 +372,23 @@ def sig_file_switch(case, mis):
     return mis["kinds"] == ["spec:stale-files-after-file-switch"]
 
 
-SIGNATURES = {"stale-files-after-file-switch": sig_file_switch, "first-round-unopenable": sig_first_round, "nilmerge-iter": sig_nilmerge_iter, "zero-gauges-child-existence": sig_child_existence}
+def sig_ops_two_failures(case, mis):
+    """A full compaction whose footer phase failed AND whose clean-up Stat (removeFileOnClose of the
+    new file) failed too leaves a newer file with a complete footer; rounds committed to the older
+    file afterwards are lost by the next OpenStore."""
+    text = " ".join(mis["detail"])
+    return mis["kinds"] == ["spec:ops-lost-after-reopen"] and "SRmStat" in text and "OpenStore: serves file" in text
+
+
+def sig_ops_first_round(case, mis):
+    """No round ever committed (failures in the first rounds): the header-only first file makes the
+    directory unopenable - F5 reached by I/O failures and a clean Close instead of a crash."""
+    text = " ".join(mis["detail"])
+    return mis["kinds"] == ["spec:ops-lost-after-reopen"] and "committed rounds ()" in text and "OpenStore: error" in text
+
+
+SIGNATURES = {"stale-files-after-file-switch": sig_file_switch, "ops-two-failures-stale-newer-file": sig_ops_two_failures,
+              "ops-first-round-unopenable": sig_ops_first_round, "first-round-unopenable": sig_first_round, "nilmerge-iter": sig_nilmerge_iter, "zero-gauges-child-existence": sig_child_existence}
 
 
 def match_known(pid, case, mis, known):
